@@ -284,3 +284,21 @@ Theorem C40_paxos_proposer_refines_if_reconciled_once : forall n f bal alogs tic
     PaxosModel.m1a p' = PaxosModel.m1a p /\ PaxosModel.m1b p' = PaxosModel.m1b p.
 Proof. exact PPaxosProposer.proposer_fixed_refines. Qed.
 Print Assumptions C40_paxos_proposer_refines_if_reconciled_once.
+
+(* FINDING (refuted on the faithful model of the leader decision, PaxosCheck.e_step, which is compared
+   with the real proposer node on every run): the p1b quorum counts Ok REPLIES, not acceptors -- two
+   Ok p1b replies of acceptor 0 for ballot (4,0) make the proposer (f = 1) leader. *)
+Theorem C40_paxos_leader_by_one_acceptor_refuted :
+  exists pre ticks,
+    let st0 := fold_left (fun st (t : list PaxosCheck.ballot * list PaxosCheck.p1bin) =>
+                            fst (fst (PaxosCheck.e_step 1 0 st (fst t) (snd t)))) pre PaxosCheck.e_init in
+    let model := PaxosCheck.e_run 1 0 st0 (map (fun t => (fst t, map snd (snd t))) ticks) in
+    PaxosCheck.elect_obl 1 []
+      (map (fun p => (flat_map (fun (r : N * PaxosCheck.p1bin) =>
+                                  match snd (snd r) with None => [(fst r, fst (snd r))] | Some _ => [] end) (snd (fst p)),
+                      fst (snd p), snd (snd p))) (combine ticks model)) = false.
+Proof.
+  exists [([(3, 1)], [])], [([], [(0, ((4, 0), None))]); ([], [(0, ((4, 0), None))])].
+  vm_compute. reflexivity.
+Qed.
+Print Assumptions C40_paxos_leader_by_one_acceptor_refuted.
